@@ -111,16 +111,24 @@ Advance ==
      /\ UNCHANGED <<flavour, admins, mutable, perm, cfgv>>
      /\ sched' = IF GenMode THEN Append(sched, ev') ELSE sched
 
-Next == \/ Advance \/ AExecute \/ AFreeze \/ AUpdateAdmins \/ AIncrease \/ ADecrease \/ ASetPerm \/ ACanq
+\* the chain admin installs the current code again: nothing changes
+AMigrate ==
+  /\ Ready /\ flavour = "subkeys"
+  /\ ev' = Ev("migrate", "creator", [x |-> 0])
+  /\ out' = <<>>
+  /\ UNCHANGED <<flavour, admins, mutable, al, perm, now, slack, stale, cfgv>>
+  /\ sched' = IF GenMode THEN Append(sched, ev') ELSE sched
+
+Next == \/ AMigrate \/ Advance \/ AExecute \/ AFreeze \/ AUpdateAdmins \/ AIncrease \/ ADecrease \/ ASetPerm \/ ACanq
 
 Spec == Init /\ [][Next]_mcvars
 
 \* ---------------------------------------------------------------- properties (boxed)
-A_C07 == [][C07_RelayOnlyAuthorised /\ C07_RelayExact /\ C07_FailRelaysNothing /\ C07_OnlyExecuteRelays]_vars
+A_C07 == [][C07_RelayOnlyAuthorised /\ C07_RelayExact /\ C07_SelfExecuteRefused /\ C07_FailRelaysNothing /\ C07_OnlyExecuteRelays]_vars
 A_C08 == [][C08_SpendExact /\ C08_AllowanceWriters /\ C08_IncreaseBounded /\ C08_DecreaseSaturating
             /\ C08_GrantExpiry /\ C08_OthersUntouched]_vars
 A_C16 == [][C16_Predicts /\ C16_ProbePredicts /\ C16_CanSound]_vars
-A_C17 == [][C17_AdminWriters /\ C17_AdminExact /\ C17_FrozenForever /\ C17_GrantsByAdmins]_vars
+A_C17 == [][C17_AdminWriters /\ C17_AdminExact /\ C17_FrozenForever /\ C17_MigrateKeeps /\ C17_GrantsByAdmins]_vars
 
 \* C16 on the design: the query path and the execute path (written separately, as in the code) agree
 \* on every reachable state for every sender and message
